@@ -92,6 +92,29 @@ func gen(r *sim.Rng, tier string) *sim.Case {
 			c.Ops = append(c.Ops, sim.Op{Op: name, K: h, V: st, D: cnt, Ks: []int{step, r.N(3)}})
 		}
 	}
+	if heavy && r.Pct(30) {
+		// the life of a dense bucket: filled beyond the threshold, drained back to a level at or
+		// below it (2049, 2048, 2047, ..., 1 members left), while a second bucket goes through
+		// a conversion of its own; then the first one is looked at again
+		h1 := highs[r.N(len(highs))]
+		h2 := h1 ^ (1 + r.N(3))
+		c1 := r.Range(4097, 5200)
+		keep := []int{1, 7, 1000, 2047, 2048, 2049, 4095, 4096}[r.N(8)]
+		st := r.N(1<<16 - c1)
+		ord := r.N(3)
+		life := []sim.Op{
+			{Op: "AddRun", K: h1, V: st, D: c1, Ks: []int{1, r.N(3)}},
+			{Op: "RemoveRun", K: h1, V: st + keep*r.N(2), D: c1 - keep, Ks: []int{1, ord}},
+			{Op: "Enum", S: []string{"Iter", "Range", "All"}[r.N(3)], D: enumStop(r)},
+			{Op: "AddRun", K: h2, V: r.N(1 << 15), D: r.Range(4097, 4300), Ks: []int{1, r.N(3)}},
+		}
+		if r.Bool() {
+			life = append(life, sim.Op{Op: "RemoveRun", K: h2, V: life[3].V, D: life[3].D - []int{1, 2048, 2049}[r.N(3)], Ks: []int{1, r.N(3)}})
+		}
+		life = append(life, sim.Op{Op: "Contains", K: h1, V: st + c1 - 1}, sim.Op{Op: "Contains", K: h1, V: st}, sim.Op{Op: "Add", K: h1, V: low()})
+		at := r.N(len(c.Ops) + 1)
+		c.Ops = append(c.Ops[:at:at], append(life, c.Ops[at:]...)...)
+	}
 	// every run ends with all three enumerations, complete
 	for _, s := range []string{"Iter", "Range", "All"} {
 		c.Ops = append(c.Ops, sim.Op{Op: "Enum", S: s})
